@@ -46,6 +46,85 @@ func init() {
 			}
 		}
 		out.f("def commissionDecoratorCases : List String := %s\n", leanStrList(uniq))
+		// control flow: every return statement of checkMaxCommission with the chain of enclosing statements (a return inside the
+		// loop that is not an error return would end the scan of a message list early)
+		var rets []string
+		for _, sf := range loadDir(repo, "app/ante") {
+			if !strings.HasSuffix(sf.rel, "commission.go") {
+				continue
+			}
+			for _, d := range sf.file.Decls {
+				fd, ok := d.(*ast.FuncDecl)
+				if !ok || fd.Name.Name != "checkMaxCommission" || fd.Body == nil {
+					continue
+				}
+				rets = append(rets, returnPaths(fd.Body, "")...)
+			}
+		}
+		out.f("def commissionDecoratorReturns : List String := %s\n", leanStrList(rets))
 		return nil
 	}
+}
+
+// returnPaths lists every return statement below n as "<enclosing statements>: return <exprs>", in source order; `continue` and
+// `break` are listed the same way.
+func returnPaths(n ast.Node, path string) []string {
+	var out []string
+	add := func(p, seg string) string {
+		if p == "" {
+			return seg
+		}
+		return p + " / " + seg
+	}
+	var walk func(n ast.Node, path string)
+	walk = func(n ast.Node, path string) {
+		switch x := n.(type) {
+		case nil:
+		case *ast.BlockStmt:
+			for _, st := range x.List {
+				walk(st, path)
+			}
+		case *ast.ReturnStmt:
+			var rs []string
+			for _, e := range x.Results {
+				rs = append(rs, exprString(e))
+			}
+			out = append(out, add(path, "return "+strings.Join(rs, ", ")))
+		case *ast.BranchStmt:
+			out = append(out, add(path, x.Tok.String()))
+		case *ast.IfStmt:
+			walk(x.Body, add(path, "if "+exprString(x.Cond)))
+			if x.Else != nil {
+				walk(x.Else, add(path, "else"))
+			}
+		case *ast.ForStmt:
+			walk(x.Body, add(path, "for"))
+		case *ast.RangeStmt:
+			walk(x.Body, add(path, "range "+exprString(x.X)))
+		case *ast.TypeSwitchStmt:
+			for _, c := range x.Body.List {
+				walk(c, path)
+			}
+		case *ast.SwitchStmt:
+			for _, c := range x.Body.List {
+				walk(c, path)
+			}
+		case *ast.CaseClause:
+			var cs []string
+			for _, e := range x.List {
+				cs = append(cs, exprString(e))
+			}
+			lbl := "default"
+			if len(cs) > 0 {
+				lbl = "case " + strings.Join(cs, ", ")
+			}
+			for _, st := range x.Body {
+				walk(st, add(path, lbl))
+			}
+		case *ast.LabeledStmt:
+			walk(x.Stmt, path)
+		}
+	}
+	walk(n, path)
+	return out
 }
